@@ -32,7 +32,7 @@ P = {
  "C07": ("Packet-literal discipline (ShouldEncrypt / epoch on every secret-carrying flight.Packet), Write reaches the record writer only after Handshake(), encrypted branch output flows only through Encrypt/seal, exporter secret provenance per State constructor; packets re-built around another packet's record inherit its protection flags; Write reads the connection state only after Handshake().",
          "Cryptographic secrecy; interleavings of Write with Close.",
          "composite-literal extraction + dominance + provenance slicing"),
- "C08": ("Panic-freedom classes (index/slice bounds by a linear-inequality abstract interpreter with Fourier-Motzkin entailment, nil map-element dereference, unchecked type assertion, explicit panic) on everything reachable from the network entry points; guarded growth of the two named buffers; decode errors mapped to drop; every error the datagram unpackers can return is mapped to "drop and continue" by the read loop.",
+ "C08": ("Panic-freedom classes (index/slice bounds by a linear-inequality abstract interpreter with Fourier-Motzkin entailment, nil map-element dereference, unchecked type assertion, explicit panic) on everything reachable from the network entry points; guarded growth of the two named buffers; decode errors mapped to drop; every error the datagram unpackers can return is mapped to drop-and-continue by the read loop.",
          "General deadlock freedom, allocation volume, CPU; bounds inside std/x-crypto.",
          "abstract interpretation (linear inequalities) over SSA + call-graph reachability"),
  "C09": ("Single allocator of record sequence numbers, no other writer of the counter, every caller holds Conn.lock and the emit roots hold writeLock through the write, the allocated number is the number stored in every header marshalled/encrypted afterwards, overflow check on the allocator result, nonce dependency set; DTLS 1.3 nonce = private copy of the IV XOR the big-endian allocated number over the last 8 bytes; ConnectionState never serves a cached snapshot (the exported counter is live).",
